@@ -382,6 +382,7 @@ def explore(ctx):
         ctx.broke("correspondence", f"verdict: model and implementation differ: {allv[i][:300]}")
     explore_loop(ctx, base)
     explore_dispatch(ctx, base / "dispatch", 4 if ctx.quick() else 150)
+    explore_imported(ctx, base / "imported")
 
 
 def explore_dispatch(ctx, base, n):
@@ -440,6 +441,61 @@ def explore_dispatch(ctx, base, n):
             if c.has_file != want or aborted:
                 ctx.fail("C03:dispatch", f"suspect copy of {name} (wants_file={wants}, file on disk: {dmg}) after one node update: recorded {c.has_file!r}, expected {want!r}"
                          + (" (released copies are not verified)" if wants == "N" else ""), {"family": "dispatch", "wants": wants, "damage": dmg, "recorded": c.has_file, "expected": want})
+    shutil.rmtree(base, ignore_errors=True)
+
+
+def explore_imported(ctx, base):
+    """'for every size an import accepted and stored': files of many lengths are registered by the real import task, then marked suspect and
+    verified by the real node update; intact ones must come out healthy, altered ones corrupt, removed ones missing, and no file is modified"""
+    from alpenhorn.daemon import auto_import as AI
+    from alpenhorn.daemon import update as U
+
+    w = __import__("vf.harness.world", fromlist=["x"])
+    shutil.rmtree(base, ignore_errors=True)
+    w.fresh_db(host="h1")
+    g = w.mkgroup("g")
+    node = w.mknode(base, "n", g, stype="F", host="h1")
+    root = pathlib.Path(node.root)
+    (root / "acq").mkdir(exist_ok=True)
+    sizes = [0, 1, 511, 512, 513, 1000, 4095, 4096, 4097, 32769, 100001]
+    plan = {}
+    for i, sz in enumerate(sizes):
+        for dmg in ("none", "flip", "delete"):
+            if sz == 0 and dmg == "flip":
+                continue
+            content = bytes((j * 7 + i) & 0xFF for j in range(sz))
+            (root / "acq" / f"s{sz}_{dmg}").write_bytes(content)
+            plan[f"s{sz}_{dmg}"] = (sz, dmg, content)
+    queue = w.StepQueue.make()
+    un = U.UpdateableNode(queue, w.StorageNode.get(id=node.id))
+    for name in plan:
+        AI.import_file(un, queue, pathlib.PurePath("acq") / name, True, None)
+    exits, aborted = w.drain_with_workers(queue)
+    reg = {f.name: (f.size_b, f.md5sum) for f in w.ArchiveFile.select()}
+    for name, (sz, dmg, content) in plan.items():
+        pth = root / "acq" / name
+        if dmg == "flip":
+            pth.write_bytes(content[:-1] + bytes([content[-1] ^ 0x40]))
+        elif dmg == "delete":
+            pth.unlink()
+    w.ArchiveFileCopy.update(has_file="M").execute()
+    before = {name: ((root / "acq" / name).read_bytes() if (root / "acq" / name).exists() else None) for name in plan}
+    un = U.UpdateableNode(queue, w.StorageNode.get(id=node.id))
+    un.update()
+    exits2, aborted2 = w.drain_with_workers(queue)
+    for name, (sz, dmg, content) in plan.items():
+        ctx.count("imported-then-verified")
+        ctx.distinct_add(("imported", sz, dmg))
+        c = w.ArchiveFileCopy.select().join(w.ArchiveFile).where(w.ArchiveFile.name == name).get_or_none()
+        exp = {"none": "Y", "flip": "X", "delete": "N"}[dmg]
+        rp = {"family": "imported-then-verified", "size": sz, "damage": dmg, "registered": reg.get(name), "recorded": c and c.has_file, "expected": exp}
+        if c is None or aborted or aborted2:
+            ctx.fail("C03:imported", f"the {sz}-byte file {name} was not imported (abort={aborted or aborted2})", rp)
+        elif c.has_file != exp:
+            ctx.fail("C03:imported", f"a {sz}-byte file imported as {reg.get(name)} and then left {'intact' if dmg == 'none' else dmg} was judged {c.has_file!r}, expected {exp!r}", rp)
+        now = (root / "acq" / name).read_bytes() if (root / "acq" / name).exists() else None
+        if now != before[name]:
+            ctx.fail("C03:file-modified", f"verification changed the {sz}-byte file {name}", rp)
     shutil.rmtree(base, ignore_errors=True)
 
 
